@@ -114,3 +114,57 @@ func VerifC19MinCommitTs() {
 	sym.Assert(sym.Implies(commitTs >= effMin, ok), "commit-at-or-above-min-commit-ts-accepted")
 	sym.Reached("end")
 }
+
+// Two commands on one primary key run concurrently — the transaction's Commit
+// and another client's CheckTxnStatus (any caller timestamp, lock expired or
+// not) — in every interleaving of their latch operations within the preemption
+// bound. The percolator functions serialise themselves through the latches, so
+// the outcome must be one of the sequential ones: a commit that succeeded leaves
+// no lock behind and a later status check reports the commit version; a commit
+// refused because the check rolled the expired lock back first leaves no lock
+// and no committed value; a commit refused because the check pushed the lock's
+// min-commit-ts first leaves the transaction pending with its lock.
+func VerifC19CommitVsStatusCheck() {
+	w := c17NewWorld()
+	defer NoKV.VerifCloseModelDB(w.db)
+	t := &c17Txn{id: 0, ttl: uint64(sym.SymInt("ttl", 0, 60)), muts: []c17Mut{{key: 0, op: pb.Mutation_Put, value: []byte{sym.U8("payload")}}}}
+	w.prewrite(t)
+	sym.Assume(w.m.lock[0] == t)
+	commitTs := w.tso("commit_gap")
+	currentTs := uint64(sym.SymInt("status_check_current_ts", 0, 120))
+	callerTs := uint64(sym.SymInt("status_check_caller_ts", 0, 120))
+	var cerr *pb.KeyError
+	var st *pb.CheckTxnStatusResponse
+	sym.Go(func() {
+		resp := w.apply(&pb.Request{CmdType: pb.CmdType_CMD_COMMIT, Cmd: &pb.Request_Commit{Commit: &pb.CommitRequest{StartVersion: t.start, CommitVersion: commitTs, Keys: t.keys()}}})
+		cerr = resp.GetCommit().GetError()
+	})
+	sym.Go(func() {
+		resp := w.apply(&pb.Request{CmdType: pb.CmdType_CMD_CHECK_TXN_STATUS, Cmd: &pb.Request_CheckTxnStatus{CheckTxnStatus: &pb.CheckTxnStatusRequest{
+			PrimaryKey: c17Keys[0], LockTs: t.start, CurrentTs: currentTs, CallerStartTs: callerTs, RollbackIfNotExist: true}}})
+		st = resp.GetCheckTxnStatus()
+	})
+	sym.Wait()
+	sym.Assert(st != nil, "status-check-answers")
+	lock, err := percolator.NewReader(w.db).GetLock(c17Keys[0])
+	sym.Assert(err == nil, "getlock-ok")
+	// afterwards, sequentially: what a later status check reports
+	later := w.apply(&pb.Request{CmdType: pb.CmdType_CMD_CHECK_TXN_STATUS, Cmd: &pb.Request_CheckTxnStatus{CheckTxnStatus: &pb.CheckTxnStatusRequest{
+		PrimaryKey: c17Keys[0], LockTs: t.start, CurrentTs: 1000, CallerStartTs: 1000, RollbackIfNotExist: true}}}).GetCheckTxnStatus()
+	if cerr == nil {
+		sym.Assert(lock == nil, "lock-present-exactly-from-prewrite-to-finish")
+		sym.Assert(later.GetError() == nil && later.GetCommitVersion() == commitTs, "finished-transaction-keeps-its-outcome")
+	} else if st.GetAction() == pb.CheckTxnStatusAction_CheckTxnStatusTTLExpireRollback {
+		// the status check found the lock expired and rolled the transaction back first
+		sym.Assert(lock == nil, "lock-present-exactly-from-prewrite-to-finish")
+		sym.Assert(later.GetError() == nil && later.GetCommitVersion() == 0, "finished-transaction-keeps-its-outcome")
+	} else {
+		// the only other reason to refuse this commit: the status check pushed the
+		// lock's min-commit-ts above the commit version first; the transaction is
+		// still pending and still holds its lock
+		sym.Assert(st.GetAction() == pb.CheckTxnStatusAction_CheckTxnStatusMinCommitTsPushed && cerr.GetCommitTsExpired() != nil, "refused-commit-has-a-protocol-reason")
+		sym.Assert(lock != nil && lock.Ts == t.start, "lock-present-exactly-from-prewrite-to-finish")
+		sym.Assert(later.GetError() == nil && later.GetCommitVersion() == 0, "finished-transaction-keeps-its-outcome")
+	}
+	sym.Reached("end")
+}
